@@ -496,6 +496,18 @@ theorem remove_result_is_sink_stop_result (env : Env) (hid k : Nat) (w : World) 
   rw [removeW_found env hid k w c s hl]
   exact stopH_res env c k s hq
 
+/-- `stop()` of an enqueue handler in working order (what `remove` runs after unpublishing it), whatever is still
+    in its pipe and whatever fails there: every queued item is processed first – the writable messages reach the
+    sink in FIFO order, failing `get`s and writes are reported by the worker, which ends only at the sentinel –
+    and only then is the sink stopped (`Gen.stopDrainsBeforeSinkStop`: sentinel, join, `sink.stop()` in this order) -/
+theorem stop_drains_queue_before_stopping_sink (env : Env) (ht : StderrTame env) (c : Cfg) (k : Nat) (s : HState)
+    (hg : Good (c, s)) (he : c.enqueue = true) :
+    Gen.stopDrainsBeforeSinkStop = true ∧
+    (stopH env c k s).st.queue = [] ∧ (stopH env c k s).st.workerAlive = false ∧
+    (stopH env c k s).st.stopped = true ∧
+    (stopH env c k s).st.sink = s.sink ++ s.queue.flatMap (workerWrites env c) :=
+  ⟨rfl, stopH_drains env ht c k s hg he⟩
+
 /-! ### round 5 – `logger.remove()` of ALL handlers (the loop of `Logger.remove` over `list(core.handlers)`) -/
 
 /-- whatever `stop()` methods raise, `remove()` never blocks, leaves every handler that is still registered in
@@ -660,5 +672,15 @@ example :
     raw (non-vacuity of `raw_message_unaffected_by_format_faults`) -/
 example : outcome exEnv { id := 1 } 0 false = .failed .keyError ∧
     outcome { exEnv with raw := fun _ => true } { id := 1 } 0 false = .delivered := by decide
+
+/-- an enqueue handler removed while two messages and an item that cannot be un-pickled are still in its pipe: all
+    three are processed before the sink is stopped (non-vacuity of `stop_drains_queue_before_stopping_sink`) -/
+example :
+    (stopH exEnv { id := 3, enqueue := true, kind := .stream } 9
+      { workerAlive := true, queue := [.msg 4, .bad 5 .typeError, .msg 6] }).st =
+      { workerAlive := false, stopped := true, sinkStopped := true, sink := [4, 6] } ∧
+    (stopH exEnv { id := 3, enqueue := true, kind := .stream } 9
+      { workerAlive := true, queue := [.msg 4, .bad 5 .typeError, .msg 6] }).ev =
+      [.report 3 none .typeError false .worker] := by decide
 
 end C04
